@@ -147,6 +147,34 @@ func genSpec(seed uint64, tier string, idx int) *Spec {
 		}
 	}
 	sp.ContDelayUs = [2]int{r.Range(800, 3000), r.Range(800, 3000)}
+	if fam == 4 && idx%16 == 4 {
+		// the recovery-only gap of BlockPreChecks: pre group Completed, the initial continuous run (always failing) still
+		// in flight at the crash; the continuous group ticks late, the sequences are quick
+		b := r.Intn(len(sp.Shape.Blocks))
+		sp.Shape.Blocks[b].G[engine.GBypass] = nil
+		sp.Shape.Blocks[b].G[engine.GPre] = &engine.Group{Retries: []int{0}}
+		sp.Shape.Blocks[b].G[engine.GCont] = &engine.Group{Retries: []int{0}}
+		pre, cont := engine.ChkPath(b, engine.GPre, 0), engine.ChkPath(b, engine.GCont, 0)
+		sp.Out[pre], sp.Out[cont] = int(engine.OOk), int(engine.OPerm)
+		delete(sp.OutText, engine.PathHuman(pre))
+		sp.OutText[engine.PathHuman(cont)] = "perm"
+		sp.SleepUs[pre], sp.SleepUs[cont] = 20, 1500
+		sp.ContDelayUs[1] = 6000
+		for _, q := range sortedKeys(sp.Shape.Actions()) {
+			if _, ok := sp.Out[q]; !ok {
+				sp.Out[q] = int(engine.OOk)
+			}
+			if strings.HasPrefix(q, fmt.Sprintf("s/%d/", b)) {
+				sp.SleepUs[q] = 30
+			}
+		}
+		for g := 0; g < 5; g++ { // nothing before this block may fail or bypass
+			if sp.Shape.G[g] != nil && g == engine.GBypass {
+				sp.Shape.G[g] = nil
+			}
+		}
+		sp.Kind = "gap"
+	}
 	if fam == 5 { // a continuous check that fails at its k-th invocation while sequences are in flight (R3 images)
 		sp.Kind, sp.Determined = "contk", false
 		sp.ContFailAt = map[string]int{}
